@@ -53,11 +53,58 @@ def run(tier):
             ops = [dict(at=300, op='rerun', reset=True, target='r/t0#0@0.0/sub1x0#0')]
             ops += [dict(rel=0, op='rerun', reset=True, target='r/t0#0@%d.0/sub1x0#0' % i) for i in range(1, n_items)]
             jobs.append(dict(prog=P, scheduler=('default', 'legacy')[k % 2], policy=pol, seed=k + 1, label='itemsub%d' % n_items, ops=ops, max_steps=900))
+    # a task INSIDE a sub-workflow fails and is rerun (or skipped) while the workflow around the parent task is still RUNNING
+    # (another branch of it is unfinished): the enclosing task must go back to RUNNING, the run ends as prescribed
+    subs = ec.random_jobs(rnd, n // 2, label='rerunsub', gen_kw=dict(partial_joins=False, p_err=0.2, p_sub=0.5, p_cmd=0.0, p_join=0.6))
+    for k, j in enumerate(subs):
+        P = j['prog']
+        for tag, oc in list(P.oracle.items()):
+            if isinstance(oc, list) and oc and oc[-1] == 'err':
+                P.oracle[tag] = oc + [rnd.choice(['ok', 'ok', 'ok', 'err'])]
+        j['ops'] = [dict(when='sub_failed_parent_running', op=('skip' if k % 4 == 3 else 'rerun'), reset=bool(k % 2), target='*sub')]
+        j['max_steps'] = 900
+        jobs.append(j)
+    for k, pol in enumerate(engrun.POLICIES[1:] * 2):
+        P = gen.sub_beside_long_branch(length=2 + k % 3)
+        jobs.append(dict(prog=P, scheduler=('default', 'legacy')[k % 2], policy=pol, seed=k + 1, label='subrerun', max_steps=900,
+                         ops=[dict(when='sub_failed_parent_running', op=('skip' if k % 5 == 4 else 'rerun'), reset=bool(k % 2), target='*sub')]))
+    # the failing catalogue shapes: every ERROR task rerun (reset on / off) or skipped once the run is at rest, under both schedulers
+    fshapes = gen.failing_shapes()
+    for nm, P in fshapes:
+        for k, pol in enumerate(engrun.POLICIES[1:4] if tier == 'quick' else engrun.POLICIES[1:]):
+            for c, o in enumerate((dict(op='rerun', reset=True), dict(op='rerun', reset=False), dict(op='skip'))):
+                jobs.append(dict(prog=P, scheduler=('default', 'legacy')[(k + c) % 2], policy=pol, seed=k + 1, label=nm + '_' + o['op'] + str(c), max_steps=900,
+                                 ops=[dict(o, at=300, pick=k)]))
+    small = ('linear_handled', 'diamond_j-1_berr', 'diamond_j-1_aerr', 'diamond_j2_cerr', 'items2_c1_err1', 'items2_c0_err1', 'retry2_plain_err_d0', 'wait_after_err_retry')
+
+    def model_runs(d):
+        out = ec.catalogue_model_runs(d, tier, shapes=fshapes, ops=1, kinds=('rerun', 'skip'), tag='_r1', liveness_for=(),
+                                      only=(None if tier == 'thorough' else small + ('items3_c0_err1', 'nested_join_inner_uncreated_err', 'diamond_j1_berr')),
+                                      schedulers=('default', 'legacy'))
+        out += ec.catalogue_model_runs(d, tier, shapes=fshapes, ops=2, kinds=('rerun', 'skip'), tag='_r2', liveness_for=(),
+                                       only=('linear_handled', 'items2_c1_err1', 'diamond_j-1_aerr') if tier == 'quick' else small)
+        out += ec.catalogue_model_runs(d, tier, shapes=fshapes, ops=3, kinds=('rerun', 'pause', 'resume'), tag='_rpr', liveness_for=(),
+                                       only=('linear_handled',) if tier == 'quick' else ('linear_handled', 'items2_c1_err1'))
+        if tier == 'thorough':
+            out += ec.catalogue_model_runs(d, tier, shapes=fshapes, ops=2, kinds=('rerun', 'pause', 'resume'), tag='_rp2', liveness_for=(),
+                                           only=('diamond_j-1_berr', 'diamond_j-1_aerr', 'retry2_plain_err_d0'))
+        return out
+
     return ec.run_property(PID, tier, jobs,
                            'generated programs (plain, with-items, join, sub-workflow and retry tasks) run to rest, then an ERROR task is rerun '
                            '(reset on/off), skipped, or rerun twice, with a new outcome for the new attempt, and run to rest again; non-trivial = '
-                           'distinct runs with an accepted rerun/skip; fixed histories: reruns inside all item sub-workflows of a with-items task issued back to back',
-                           _nontrivial, prescribed=True)
+                           'distinct runs with an accepted rerun/skip; fixed histories: reruns inside all item sub-workflows of a with-items task issued back to back; '
+                           'reruns / skips of a task inside a failed sub-workflow issued while the workflow around the parent task is still RUNNING; '
+                           'every failing catalogue shape (plain, with-items, policies) with each ERROR task rerun (reset on / off) or skipped at rest',
+                           _nontrivial, prescribed=True, strict=True, model_runs=model_runs,
+                           model_behaviours=lambda d: ec.model_jobs(
+                               d, tier, shapes=fshapes,
+                               sims=[(small + ('items3_c0_err1', 'diamond_errroute'), 2 if tier == 'quick' else 8, 1, 0, ('rerun', 'skip')),
+                                     (small[:4], 2 if tier == 'quick' else 8, 3, 0, ('rerun', 'pause', 'resume'))],
+                               probes=[('waiting_join_never_refreshed_after_rerun', 'diamond_j-1_berr', 'Quiet /\\ wf = "RUNNING" /\\ KF_RerunJoin', 1, 0, ('rerun', 'skip')),
+                                       ('items_task_hangs_after_partial_rerun', 'items3_c0_err1',
+                                        'Quiet /\\ wf = "RUNNING" /\\ \\E x \\in hist.rerunT : IsItems(x) /\\ tk[x].state = "RUNNING"', 1, 0, ('rerun',)),
+                                       ('rerun_completes', 'linear_handled', 'Quiet /\\ wf = "SUCCESS" /\\ hist.reruns = 1 /\\ tk["a"].state = "SUCCESS"', 1, 0, ('rerun',))]))
 
 
 def replay(path):
